@@ -21,6 +21,89 @@ const WT: u8 = 0;
 const WU: u8 = 1;
 const F: u8 = 2;
 
+/// A shape type defined OUTSIDE the crate (the traits are public) that reports
+/// ShapeType::NullShape: offered to a writer that already holds a type it must be rejected
+/// like any other foreign type.
+struct UserNull;
+impl HasShapeType for UserNull {
+    fn shapetype() -> ShapeType {
+        ShapeType::NullShape
+    }
+}
+impl shapefile::record::WritableShape for UserNull {
+    fn size_in_bytes(&self) -> usize {
+        0
+    }
+    fn write_to<T: std::io::Write>(&self, _dest: &mut T) -> Result<(), Error> {
+        Ok(())
+    }
+}
+impl shapefile::record::EsriShape for UserNull {
+    fn x_range(&self) -> [f64; 2] {
+        [7.0, 7.0]
+    }
+    fn y_range(&self) -> [f64; 2] {
+        [7.0, 7.0]
+    }
+}
+
+/// After one accepted shape of type `t`: offering `UserNull` must fail with the mismatch error
+/// naming (t, NullShape), issue no I/O, and leave the final bytes as if it had not happened.
+fn user_null_probe(t: i32, st: &Shape, complete: bool) -> Option<String> {
+    let (a, b, c) = (Dest::new(), Dest::new(), Dest::new());
+    let (a2, b2, c2) = (Dest::new(), Dest::new(), Dest::new());
+    let check = |res: Result<(), Error>| -> Option<String> {
+        match res {
+            Err(Error::MismatchShapeType { requested, actual }) if requested as i32 == t && actual as i32 == 0 => None,
+            Err(e) => Some(format!("result {}", err_class(&e))),
+            Ok(()) => Some("a shape reporting NullShape was accepted by a writer holding another type".into()),
+        }
+    };
+    let mut bad = None;
+    if complete {
+        {
+            let mut w = Writer::new(ShapeWriter::with_shx(a.clone(), b.clone()), table_builder().build_with_dest(c.clone()));
+            write_pair(&mut w, st, &row(0)).ok()?;
+            for d in [&a, &b, &c] {
+                d.set_epoch(77);
+            }
+            bad = bad.or(check(w.write_shape_and_record(&UserNull, &row(1))));
+            for d in [&a, &b, &c] {
+                d.set_epoch(78);
+            }
+            write_pair(&mut w, st, &row(2)).ok()?;
+        }
+        {
+            let mut w = Writer::new(ShapeWriter::with_shx(a2.clone(), b2.clone()), table_builder().build_with_dest(c2.clone()));
+            write_pair(&mut w, st, &row(0)).ok()?;
+            write_pair(&mut w, st, &row(2)).ok()?;
+        }
+    } else {
+        {
+            let mut w = ShapeWriter::with_shx(a.clone(), b.clone());
+            write_one(&mut w, st).ok()?;
+            a.set_epoch(77);
+            b.set_epoch(77);
+            bad = bad.or(check(w.write_shape(&UserNull)));
+            a.set_epoch(78);
+            b.set_epoch(78);
+            write_one(&mut w, st).ok()?;
+        }
+        {
+            let mut w = ShapeWriter::with_shx(a2.clone(), b2.clone());
+            write_one(&mut w, st).ok()?;
+            write_one(&mut w, st).ok()?;
+        }
+    }
+    if bad.is_none() && [&a, &b, &c].iter().any(|d| !d.ops_in_epoch(77).is_empty()) {
+        bad = Some("I/O during the rejected call".into());
+    }
+    if bad.is_none() && (a.data() != a2.data() || b.data() != b2.data() || mask_dbf(c.data()) != mask_dbf(c2.data())) {
+        bad = Some("final bytes differ from the history without the rejected call".into());
+    }
+    bad
+}
+
 fn word_str(w: &[u8]) -> String {
     w.iter().map(|l| ["W_T", "W_U", "F"][*l as usize]).collect::<Vec<_>>().join(" ")
 }
@@ -233,6 +316,19 @@ pub fn run(ctx: &Ctx) -> Report {
         let c = Cfg::plain(2, 3);
         let st = gen::shape(t, &mut r, &c);
         let su = gen::shape(u, &mut r, &c);
+        if u == types[(types.iter().position(|x| *x == t).unwrap() + 1) % types.len()] {
+            // once per (T, writer kind): the user-defined NullShape-typed shape
+            let case = format!("c10:T{}:user-null:{}", t, if complete { "writer" } else { "shapewriter" });
+            if ctx.want(&case) {
+                rep.eval();
+                rep.count("user_defined_nullshape_offers", 1);
+                match panicmon::catch(|| user_null_probe(t, &st, complete)) {
+                    Ok(None) => {}
+                    Ok(Some(what)) => rep.violation(&format!("({},NullShape)/user-defined-shape", type_name(t)), &case, J::s(what)),
+                    Err(p) => rep.violation(&format!("({},NullShape)/panic", type_name(t)), &case, J::s(p.class())),
+                }
+            }
+        }
         for (wi, word) in words.iter().enumerate() {
             if complete && word.contains(&F) {
                 continue; // the complete writer has no finalize: its alphabet is {W_T, W_U}
